@@ -126,6 +126,60 @@ def l1_search(depth):
     return states, transitions, nmodel, bad, samples
 
 
+def l1_strand_votes():
+    """the strand implied by splice sites: every one of the 256 (left, right) dinucleotide pairs as a single intron x the four polyA/polyT
+       evidence combinations, and every ordered pair of introns from the 6 canonical pairs, the 4 hybrid pairs (left site of one
+       canonical pair with the right site of another), one half-site and one non-site, against the definition (an intron votes '+' iff
+       its pair is one of GT-AG, GC-AG, AT-AC, '-' iff it is a reverse complement of those; majority; ties decided by the tail evidence)"""
+    from src.gene_info import StrandDetector
+    nts = "ACGT"
+    dinucs = [a + b for a in nts for b in nts]
+    pairs = [(l, r) for l in dinucs for r in dinucs]
+    seq = list("C" * (150 * len(pairs) + 300))
+    introns = []
+    for i, (l, r) in enumerate(pairs):
+        s_ = 101 + 150 * i
+        e_ = s_ + 99
+        seq[s_ - 1:s_ + 1] = list(l)
+        seq[e_ - 2:e_] = list(r)
+        introns.append((s_, e_))
+    seq = "".join(seq)
+    vote = lambda p: "+" if p in FWD else ("-" if p in REV else ".")
+
+    def model(ps, pa, pt):
+        f = sum(1 for p in ps if vote(p) == "+")
+        r = sum(1 for p in ps if vote(p) == "-")
+        if f == r:
+            return "+" if pa and not pt else ("-" if pt and not pa else ".")
+        return "+" if f > r else "-"
+
+    def clean(ps):
+        f = sum(1 for p in ps if vote(p) == "+")
+        r = sum(1 for p in ps if vote(p) == "-")
+        return "-" if (f == 0 and r > 0) else ("+" if (f > 0 and r == 0) else ".")
+    bad = []
+    n = 0
+    special = sorted(FWD | REV) + [("AT", "AG"), ("GC", "AC"), ("CT", "AT"), ("GT", "GC"), ("GT", "AC"), ("GT", "CC"), ("CC", "GG")]
+    queries = [(p,) for p in pairs] + [(a, b) for a in special for b in special]
+    for ps in queries:
+        its = [introns[pairs.index(p)] for p in ps]
+        for pa in (False, True):
+            for pt in (False, True):
+                n += 1
+                sd = StrandDetector(seq)          # fresh: no memo from earlier queries
+                got = sd.get_strand(list(its), pa, pt)
+                exp = model(ps, pa, pt)
+                if got != exp:
+                    bad.append((ps, "l1:strand-vote:%s" % ("single" if len(ps) == 1 else "pair"),
+                                "introns with sites %s, polyA=%s polyT=%s: get_strand says %s, the definition gives %s" % (list(ps), pa, pt, got, exp)))
+        n += 1
+        got = StrandDetector(seq).get_clean_strand(list(its))
+        if got != clean(ps):
+            bad.append((ps, "l1:clean-strand:%s" % ("single" if len(ps) == 1 else "pair"),
+                        "introns with sites %s: get_clean_strand says %s, the definition gives %s" % (list(ps), got, clean(ps))))
+    return n, bad
+
+
 # ------------------------------------------------------------------------------------------------ L2
 def antisense_world(order, lower=False):
     """GP(+): exons A B C ; GM(-): exons Z B C (Z left of A or right) sharing intron B-C.  Intron B-C is canonical for '+'.
@@ -460,6 +514,11 @@ def run(ctx):
     for hist, kind, msg in bad:
         ctx.violation(kind, msg, {"history": str(hist)})
     ctx.note("L1 query-history search depth %d: %d states, %d transitions, %d model pairs" % (depth, states, transitions, nmodel))
+    nv, badv = l1_strand_votes()
+    for ps, kind, msg in badv:
+        ctx.violation(kind, msg, {"sites": [list(p) for p in ps]})
+    transitions += nv
+    ctx.note("L1 strand votes: %d evaluations (all 256 dinucleotide pairs x tail evidence, all ordered pairs of 17 site classes)" % nv)
     n = 3 if quick else 4
     orders = sorted(set(itertools.product("lr", repeat=n)) - {("l",) * n, ("r",) * n})
     jobs = [("anti", o, ctx.scratch) for o in orders] + [("antinovel", (v, lvl), ctx.scratch) for v in (0, 1, 2) for lvl in ("all", "auto")] + \
